@@ -581,6 +581,7 @@ def _distribute(ctx, model):
                "expands to a sum only after mapping), so the test misses it or "
                "admits the wrong class")
     ctx.floor("DistributeMapper handlers", n_handlers, 4)
+    _collector_accepts_distributor_terms(ctx, model, dm)
     # map_power multiplies a power of a sum out by repeating the base
     # `exponent` times: for exponent <= 0 the repetition is empty, which is
     # the constant 1 (wrong for negative exponents) and not a Product at all
@@ -623,6 +624,66 @@ def _distribute(ctx, model):
            "exponent the repetition is empty, flattened_product gives the "
            "constant 1 and map_product fails on it (expand((x + 1)**0) raises "
            "AttributeError)")
+
+
+def _collector_accepts_distributor_terms(ctx, model, dm):
+    """sibling agreement: every kind of factor DistributeMapper builds itself
+    (rather than receiving from the input) is a term TermCollector.split_term
+    accepts -- the distributor hands each product it builds to the collector,
+    whose split_term raises on a term it cannot classify"""
+    tc = model.cls("pymbolic.mapper.collector:TermCollector")
+    st = tc.members.get("split_term")
+    if st is None:
+        raise AnalysisError("TermCollector.split_term not found")
+    param = st.node.args.args[1].arg
+    accepted = set()
+    has_refusal = False
+    for n_ in ast.walk(st.node):
+        if isinstance(n_, ast.Call) and ast.unparse(n_.func) == "isinstance" and \
+                len(n_.args) == 2 and ast.unparse(n_.args[0]) == param:
+            t = n_.args[1]
+            elts = t.elts if isinstance(t, ast.Tuple) else [t]
+            accepted.update(ast.unparse(e).split(".")[-1] for e in elts)
+        if isinstance(n_, ast.Raise):
+            has_refusal = True
+    if not accepted:
+        raise AnalysisError("split_term: accepted term classes not found")
+    if not has_refusal:
+        ctx.ob("S/collector/accepts-distributor-terms", True, where(st),
+               "split_term refuses nothing")
+        return
+
+    def is_accepted(node):
+        names = {k.name for k in model.mro(node.cls) if not isinstance(k, str)}
+        return bool(names & accepted)
+    # factors the distributor constructs: type(expr)(...) in a handler whose
+    # result is a product of it with something mapped
+    n = 0
+    for node, res, chain, mem in mapper_node_pairs(model, dm):
+        if mem is None or mem.kind != "func" or mem.owner is not dm:
+            continue
+        if not node.decorated:
+            continue        # legacy exact nodes hold numbers, no variables
+        builds_own = any(
+            isinstance(c, ast.Call) and isinstance(c.func, ast.Call)
+            and ast.unparse(c.func.func) == "type"
+            for r in ast.walk(mem.node) if isinstance(r, ast.Return)
+            and r.value is not None for c in ast.walk(r.value)
+            if "flattened_product" in ast.unparse(r.value))
+        if not builds_own:
+            continue
+        n += 1
+        ok = is_accepted(node)
+        ctx.ob(f"S/collector/accepts-distributor-terms:{node.name}", ok,
+               where(mem),
+               f"{node.name} factors built by the distributor are accepted by "
+               "split_term" if ok else
+               f"DistributeMapper.{mem.node.name} puts a {node.name} node "
+               f"(type(expr)(1, ...)) into the products it returns, but "
+               f"TermCollector.split_term accepts only {sorted(accepted)} (or "
+               "terms without variables) and raises RuntimeError on anything "
+               f"else: expand((x + 1)*((y + 1)/z)) fails")
+    ctx.floor("distributor handlers building their own factors", n, 1)
 
 
 def _has(v, tag):
